@@ -27,8 +27,8 @@ RULE = ("histories over real workspaces: a universe (homogeneous / heterogeneous
         "implementation's observation.  non-trivial: >=2 selected jobs or a non-empty previous view; distinct by the "
         "emitted case literal")
 TRUSTED = [
-    "job -> path map (_make_path_function, shared with export, owned by the Export model) is an oracle: the harness calls "
-    "the real function on the same job list and passes its per-job result to the model and to the oracle",
+    "job -> path map: computed in Coq by SV.Export.path_function from the state points, the spec and str/format/repr tables; "
+    "signac's own path function is never fed to the model (harness safety screen and replay text only)",
     "POSIX semantics of mkdir/symlink/unlink/rmdir/lstat/readlink and CPython 3.12 os.makedirs/os.path.realpath/"
     "relpath/normpath as transcribed in View.v (validated by the correspondence on every case)",
     "iteration order of Python sets inside _analyze_view is taken from the observed order of attempted system calls "
